@@ -821,6 +821,11 @@ def c02_abort_kind(env, ob):
         if idx(path, RX_COMMIT_REC):
             return ("rollback_logs_commit_record", None)
         if not idx(path, RX_ABORT_REC):
+            # the only rollback that may return Ok without a record is the one that found the transaction already ended
+            ended = [e for e in path.events if callee_is(e, r"(can_commit|is_active|is_open|is_finished|has_ended)$")
+                     and isinstance(e["ret"], Leaf) and (f"(not {e['ret'].term})" in path.pc or e["ret"].term in path.pc)]
+            if ended and not idx(path, RX_ABORT_TXN):
+                return None
             return ("rollback_ok_without_abort_record", okc)
         return None
     return trace_obligation(env, ob, ctx, res, bad, "a rollback path appends a Commit record / returns Ok without an Abort record")
@@ -837,6 +842,7 @@ def commit_paths(env):
 
 
 RX_COMMIT_TXN = r"TransactionContext::commit_transaction$"
+RX_ABORT_TXN = r"TransactionContext::abort_transaction$"
 RX_FLUSH = r"flush_wal$"
 
 
@@ -860,6 +866,41 @@ def c01_commit_order(env, ob):
             return None
         r = trace_obligation(env, ob, ctx, res, bad, "Ok returned without [Commit record] < [flush_wal]")
         agg = merge(agg, r)
+    return agg
+
+
+@obligation(id="C01.finished_transaction_logs_no_abort", also="C02",
+            funcs="Session::abort_transaction,<Session as Drop>::drop,TransactionLogger::log_abort",
+            bounds="every path of Session::abort_transaction and of the Drop impl of Session (which calls it); callees "
+                   "uninterpreted", native="c01_session_dropped_after_commit")
+def c01_no_abort_after_commit(env, ob):
+    """A session is dropped after every use, also after its COMMIT returned.  Recovery reads the log in order and the last
+    control record of a transaction decides its fate, so the rollback path may append an ABORT record only after it has
+    established that the transaction has not ended yet; an unconditional ABORT behind a COMMIT un-commits acknowledged
+    work at the next crash."""
+    agg = None
+    state_rx = r"(can_commit|is_active|is_open|is_finished|has_ended|state)$"
+    for fn, hint in (("abort_transaction", "tcp/session.rs"), ("drop", "tcp/session.rs")):
+        inl = dict(LOG_INLINE)
+        if fn == "drop":
+            inl[r"^Session::abort_transaction$"] = ("tcp/session.rs", "abort_transaction", None)
+        ctx, f, args, res = explore(env, hint, fn, sig=r"&mut Session\)", inline=inl)
+
+        def bad(path, rv, fn=fn):
+            if path.panics:
+                return None
+            ab = idx(path, RX_ABORT_REC)
+            if not ab:
+                return None
+            guards = [e for e in path.events[:ab[0]] if callee_is(e, state_rx) and isinstance(e["ret"], Leaf)
+                      and (e["ret"].term in path.pc or f"(not {e['ret'].term})" in path.pc)]
+            if not guards:
+                return (f"abort_record_logged_without_checking_that_the_transaction_is_still_open@Session::{fn}", None)
+            return None
+        if not any(idx(p, RX_ABORT_REC) for p, rv in res):
+            agg = merge(agg, result(ob, "inconclusive", reason=f"vacuity: Session::{fn} never logs an Abort record", paths=len(res)))
+            continue
+        agg = merge(agg, trace_obligation(env, ob, ctx, res, bad, "Session logs an ABORT record for a transaction that may already have committed"))
     return agg
 
 
@@ -2812,6 +2853,95 @@ def c11_merged_sibling(env, ob):
         return result(ob, "inconclusive", reason="vacuity: no path completes an iteration of the loop", paths=len(res))
     return trace_obligation(env, ob, ctx, [(p, Unit() if p.stopped else rv) for p, rv in res], bad,
                             "a sibling unlinked by rebalancing is not put on the free list", cuts_ok=True)
+
+
+def block_succs(f):
+    succ = {}
+    for bb, st in f.blocks.items():
+        outs = []
+        for x in st:
+            x = x.strip()
+            if "-> " in x or x.startswith("goto") or x.startswith("switchInt"):
+                tail = x.split("->", 1)[-1]
+                tail = re.sub(r"unwind: bb\d+", "", tail)
+                outs += re.findall(r"\bbb\d+\b", tail)
+        succ[bb] = outs
+    return succ
+
+
+def preds_upto(f, target, depth):
+    succ = block_succs(f)
+    pred = {}
+    for b_, outs in succ.items():
+        for o in outs:
+            pred.setdefault(o, set()).add(b_)
+    seen, frontier = {target}, {target}
+    for _ in range(depth):
+        frontier = {p for b_ in frontier for p in pred.get(b_, ())} - seen
+        seen |= frontier
+    return sorted(seen, key=lambda b_: int(b_[2:]))
+
+
+@obligation(id="C10.frontier_links_are_mirrored", funcs="Btree::balance (the two 'fix the global frontier links' steps)",
+            bounds="the regions of the MIR body of Btree::balance that re-link the page to the right / to the left of the "
+                   "redistributed siblings, entered from the test of the frontier and from each of its predecessor blocks, each "
+                   "from an arbitrary state of every local; callees uninterpreted",
+            native="c10_sibling_links_after_rebalance")
+def c10_frontier_links(env, ob):
+    """Sibling links mirror the key order on EVERY level: after the siblings were redistributed (their page ids may have
+    changed), the page to the right of the group must point back at the group's last page and the page to its left must
+    point at its first page - whether the level is a leaf level or an interior one.  So no way into these steps may get
+    past them without either finding that there is no such neighbour or writing the link."""
+    f = env.mir.find("tree/bplustree.rs", "balance")
+    loc = {}
+    for nm in ("global_right_frontier", "global_left_frontier"):
+        v = f.debug.get(nm)
+        if not v or not re.match(r"^_\d+$", v):
+            raise Unsupported(f"local `{nm}` of Btree::balance not found in the dump")
+        bbs = [bb for bb, st in f.blocks.items() if any(re.search(r"= discriminant\(" + v + r"\)", x) for x in st)]
+        if len(bbs) != 1:
+            raise Unsupported(f"the test of `{nm}` is not a single block ({len(bbs)})")
+        loc[nm] = (v, bbs[0])
+    rec = [bb for bb, st in f.blocks.items() if any(re.search(r"= Btree::<Acc>::balance\(", x) for x in st)]
+    if not rec:
+        raise Unsupported("the recursive call that ends Btree::balance not found")
+    agg = None
+    for nm, stop, setter, what in (("global_right_frontier", [loc["global_left_frontier"][1]], r"set_prev_sibling$", "right"),
+                                   ("global_left_frontier", rec, r"set_next_sibling$", "left")):
+        v, test_bb = loc[nm]
+        stopset = set(stop)
+        for start in preds_upto(f, test_bb, 1):
+            if start in stopset:
+                continue
+            ctx = mirsmt.Ctx()
+            ex = mirsmt.Executor(env.mir, ctx, models=dict(COMMON_MODELS), loop_bound=1, max_paths=5000)
+            a0 = [ctx.sym("p%d" % i, t) for i, (n, t) in enumerate(f.params)]
+            try:
+                res = ex.run(f, a0, start_bb=start, stop_bbs=stop)
+            except Unsupported as e:
+                agg = merge(agg, result(ob, "inconclusive", reason=f"{what} frontier from {start}: {str(e)[:100]}"))
+                continue
+            if not any(p.stopped for p, rv in res):
+                continue     # this entry never reaches the end of the step (error paths only)
+
+            def bad(path, rv, setter=setter, what=what, v=v):
+                if path.panics or not path.stopped:
+                    return None
+                hit = idx(path, setter)
+                if hit:
+                    a = path.events[hit[0]]["args"][1]
+                    if what == "right" and not (isinstance(a, Agg) and a.disc is not None and mirsmt.const_of(a.disc.term) == 1):
+                        return (f"{what}_neighbour_link_not_set_to_a_sibling", None)
+                    return None
+                none = [c for c in path.pc if re.match(r"^\(= \|balance\." + v + r"!\d+#d\| \(_ bv0 64\)\)$", c)]
+                if none:
+                    return None
+                return (f"{what}_neighbour_of_the_rebalanced_group_keeps_its_old_link", None)
+            agg = merge(agg, trace_obligation(env, ob, ctx, [(p, Unit() if p.stopped else rv) for p, rv in res], bad,
+                                              f"the page to the {what} of a rebalanced group is not re-linked", cuts_ok=True))
+    if agg is None:
+        return result(ob, "inconclusive", reason="vacuity: no region reaches the end of a frontier step")
+    return agg
 
 
 # ---------------------------------------------------------------------------------------------------------------------
